@@ -259,11 +259,28 @@ func (r *Run) checkArms(ld *Loaded, encs []Encoding, comps func(e Encoding) map[
 	r.reportFailures(ld, bad, compMask)
 	// the contract of executeOne may be used by callers (Step) only if every
 	// arm, on every component, with frame and safety, was discharged in this run
-	if c := ld.contracts["z80.(*CPU).executeOne"]; c != nil && comps == nil && frame && safety && r.only == "" {
-		c.Discharged = len(bad) == 0 && len(r.engineErr) == 0
-		if c.Discharged {
+	if c := ld.contracts["z80.(*CPU).executeOne"]; c != nil && frame && r.only == "" && len(encs) == len(allEncodings()) && len(bad) == 0 && len(r.engineErr) == 0 {
+		if comps == nil {
+			c.Discharged = true
 			c.Status = "discharged"
 			r.Funcs[c.Key] = "hand-written contract, discharged by 1786-way opcode split"
+		} else {
+			// components that were goals of every arm
+			names, _ := ld.components()
+			c.DischargedBits = map[string]bool{}
+			for _, n := range names {
+				all := true
+				for _, e := range encs {
+					if !comps(e)[n] {
+						all = false
+						break
+					}
+				}
+				if all {
+					c.DischargedBits[n] = true
+				}
+			}
+			r.Funcs[c.Key] = fmt.Sprintf("hand-written contract, components %v discharged by 1786-way opcode split", keysOf(c.DischargedBits))
 		}
 	}
 }
@@ -273,4 +290,13 @@ func init() {
 		r.verifyHelpers(ld, nil)
 		r.checkArms(ld, allEncodings(), nil, true, true)
 	}
+}
+
+func keysOf(m map[string]bool) []string {
+	var out []string
+	for k := range m {
+		out = append(out, k)
+	}
+	sort.Strings(out)
+	return out
 }
